@@ -69,7 +69,14 @@ type mStep struct {
 	ID  string           `json:"id,omitempty"`
 	I   int              `json:"i,omitempty"`
 	M   *mMsg            `json:"m,omitempty"`
-	Out []mMsg           `json:"out"`
+	// Early (child steps that directly follow a client step of the same session, I >= 1): the child emits
+	// its message while the broadcast of that client message has reached only the children before it, i.e.
+	// after the session has taken the client message and before this child has seen it.  The session does
+	// its bookkeeping before it broadcasts, so the outcome is that of the two steps one after the other.
+	Early bool `json:"early,omitempty"`
+	// EarlyRan (observation): the child did emit before it took the client message
+	EarlyRan bool   `json:"early_ran,omitempty"`
+	Out      []mMsg `json:"out"`
 }
 
 type mCase struct {
@@ -190,6 +197,7 @@ const mergeStepTimeout = 5 * time.Second
 func runMerge(c *mCase) {
 	for i := range c.Steps {
 		c.Steps[i].Out = []mMsg{}
+		c.Steps[i].EarlyRan = false
 	}
 	c.Fail = ""
 	defer func() {
@@ -282,8 +290,12 @@ func runMerge(c *mCase) {
 		}
 	}
 
+	skip := -1
 	for k := range c.Steps {
 		st := &c.Steps[k]
+		if k == skip {
+			continue // ran together with the client step before it
+		}
 		if st.S < 0 || st.S >= nsess {
 			c.Fail = "bad case: session index out of range"
 			return
@@ -310,7 +322,68 @@ func runMerge(c *mCase) {
 			return
 		}
 		// the session broadcasts in child order over unbuffered channels
+		var early *mStep
+		if k+1 < len(c.Steps) {
+			if nx := &c.Steps[k+1]; nx.K == "child" && nx.Early && nx.S == st.S && nx.I >= 1 && nx.I < c.N && nx.M != nil {
+				early = nx
+			}
+		}
 		for i := range children {
+			if early != nil && i == early.I {
+				esent := mocrelay.ServerMsg(mocrelay.NewServerNoticeMsg(fmt.Sprintf("\x00sentinel %d", k+1)))
+				injected, seen := false, false
+				select {
+				case children[i].ports[st.S].cmd <- []mocrelay.ServerMsg{early.M.toServer(), esent}:
+					injected = true
+				case g := <-children[i].ports[st.S].got:
+					// the child took the client message first: the step runs in the ordinary way afterwards
+					if g != msg {
+						c.Fail = fmt.Sprintf("child %d received a different client message", i)
+						return
+					}
+					seen = true
+				case <-time.After(mergeStepTimeout):
+					c.Fail = fmt.Sprintf("hang: child %d neither takes commands nor the client message", i)
+					return
+				}
+				if !injected {
+					early = nil
+					if seen {
+						continue
+					}
+				} else {
+					// the child's output and the rest of the broadcast, in whatever order they come
+					next, done := i, false
+					timer := time.NewTimer(mergeStepTimeout)
+					for !done || next < len(children) {
+						var gotc chan mocrelay.ClientMsg
+						if next < len(children) {
+							gotc = children[next].ports[st.S].got
+						}
+						select {
+						case m := <-sends[st.S]:
+							if m == esent {
+								done = true
+							} else {
+								early.Out = append(early.Out, fromServer(m))
+							}
+						case g := <-gotc:
+							if g != msg {
+								c.Fail = fmt.Sprintf("child %d received a different client message", next)
+								return
+							}
+							next++
+						case <-timer.C:
+							c.Fail = "hang: early child message or broadcast did not complete"
+							return
+						}
+					}
+					timer.Stop()
+					early.EarlyRan = true
+					skip = k + 1
+					break
+				}
+			}
 			select {
 			case g := <-children[i].ports[st.S].got:
 				if g != msg {
